@@ -7,7 +7,8 @@
  * Every cycle creates one thread and has it reaped by one of: join, a tryjoin loop, timedjoin, detach before
  * the thread has run (parent-first creation), detach after it has finished (child-first creation), the
  * detached attribute; with the default stack (attr == NULL), the default size through an initialised
- * attribute, and two custom sizes (one of them not a power of two after rounding to 4 KiB).
+ * attribute, and two custom sizes (one of them not a power of two after rounding to 4 KiB).  Every other round of
+ * 24 cycles the joining calls pass a NULL result pointer.
  * The address-space size of the process (/proc/self/statm, first field, pages) is sampled after the first
  * 10% of the cycles, then after every further 10%.
  *
@@ -63,17 +64,19 @@ int main(int argc, char ** argv) {
     } else {
       id = myth_create(body, (void *)i);
     }
+    int nl = (int)((i / (R_N * 4)) & 1);          /* every other round of 24: NULL result pointer */
+    void ** vp = nl ? 0 : &v;
     switch (kind) {
     case R_JOIN:
-      if (myth_join(id, &v) != 0 || v != (void *)i) bad++;
+      if (myth_join(id, vp) != 0 || (!nl && v != (void *)i)) bad++;
       break;
     case R_TRYJOIN:
-      while (myth_tryjoin(id, &v) != 0) myth_yield();
-      if (v != (void *)i) bad++;
+      while (myth_tryjoin(id, vp) != 0) myth_yield();
+      if (!nl && v != (void *)i) bad++;
       break;
     case R_TIMEDJOIN: {
       struct timespec ts; clock_gettime(CLOCK_REALTIME, &ts); ts.tv_sec += 5;
-      if (myth_timedjoin(id, &v, &ts) != 0 || v != (void *)i) bad++;
+      if (myth_timedjoin(id, vp, &ts) != 0 || (!nl && v != (void *)i)) bad++;
       break; }
     case R_DETACH_BEFORE:             /* parent-first: the child has not run yet */
       myth_detach(id);
